@@ -95,6 +95,9 @@ Proof. exact x_merge_extents_ok. Qed.
 Theorem C19_src_fiemap_page_and_eof : x_fiemap_page_size = N.of_nat FIEMAP_PAGE_SIZE /\ x_lseek_eof_errnos = [ENXIO].
 Proof. split; [exact x_fiemap_page_size_ok|exact x_lseek_eof_ok]. Qed.
 
+Theorem C19_src_next_sparse_segments : forall sd sh len pos, x_next_segment sd sh len pos = next_segment sd sh len pos.
+Proof. exact x_next_segment_ok. Qed.
+
 Print Assumptions C19_merge_covers.
 Print Assumptions C19_merge_boundaries.
 Print Assumptions C19_merge_adds_only_gaps.
@@ -105,3 +108,4 @@ Print Assumptions C19_merged_map_covers.
 Print Assumptions C19_segments_cover_data.
 Print Assumptions C19_src_merge_extents.
 Print Assumptions C19_src_fiemap_page_and_eof.
+Print Assumptions C19_src_next_sparse_segments.
